@@ -7,13 +7,47 @@ PID = 'C14'
 ROUTES = ['input', 'inputs', 'file', 'dir', 'zip']
 
 
+def real_models():
+    """the BridgePoint model files of the repository's test resources: (statements, diagram read from them)"""
+    import os
+    from .. import bpread
+    out = []
+    p = os.path.join(common.REPO, 'tests', 'resources', 'Simple_Model.xtuml')
+    texts = []
+    if os.path.exists(p):
+        texts.append(open(p, encoding='utf-8').read())
+    # (the model text that tests/test_bridgepoint/test_interpret.py carries as a string constant)
+    p = os.path.join(common.REPO, 'tests', 'test_bridgepoint', 'test_interpret.py')
+    if os.path.exists(p):
+        import ast
+        for node in ast.parse(open(p, encoding='utf-8').read()).body:
+            if isinstance(node, ast.Assign) and getattr(node.targets[0], 'id', '') == 'model' and \
+                    isinstance(node.value, ast.Constant) and isinstance(node.value.value, str):
+                texts.append(node.value.value)
+    for text in texts:
+        out.append(([s for _, _, s in bpread.statements(text)], bpread.diagram(text)))
+    return out
+
+
 def scripts(tier, seed, xsd=False):
     rnd = random.Random(seed)
     items = []
     bases = [bpgen.base_diagram(), bpgen.reflexive_linked()]
-    nscripts = 10 if tier == 'quick' else 150
-    length = 8 if tier == 'quick' else 14
+    # a real model: its file as it is (rows in file order and shuffled, every route, whole model and each component), and
+    # its diagram as the starting point of further edit scripts
     k = 0
+    for stmts, d in real_models():
+        bases.append(d)
+        for root in [''] + d['comps']:
+            if xsd and not root:
+                continue
+            for j in range(5 if tier == 'quick' else 20):
+                items.append({'d': d, 'stmts': stmts, 'root': root, 'derived': bool(j % 2) or xsd, 'route': ROUTES[k % len(ROUTES)],
+                              'shuffle': bool(j), 'seed': rnd.randint(0, 10 ** 6), 'via': ['loader', 'mk'][k % 2],
+                              'xsd': (['tree', 'main'][k % 3 == 0] if xsd else ''), 'trail': ['real']})
+                k += 1
+    nscripts = 12 if tier == 'quick' else 150
+    length = 8 if tier == 'quick' else 14
     for s in range(nscripts):
         d = bases[s % len(bases)]
         trail = ['base']
@@ -94,7 +128,10 @@ def check(tier, replay_path=None):
              'persisted SQL schema to load back to the same definitions; distinct = (diagram, root, derived)',
         model='BpModel.tla Component (ClassDef, UniqueDefs, AssocDefs for simple, linked and subtype relationships)',
         assumptions=[
-            'the BridgePoint model text is synthesised from the diagram by vt/adapters/_bp.py (the constructive direction); '
+            'the real model of the test resources (Simple_Model.xtuml) is loaded as it is (file order and shuffled statements); its '
+            'diagram is read from the rows of the file by vt/bpread.py (the harness itself, no pyxtuml); edited diagrams and the '
+            'synthetic base diagrams become '
+            'BridgePoint model text through vt/adapters/_bp.py (the constructive direction); '
             'every edit is a new synthesis, so "changes exactly the corresponding part" follows from Component being a function of '
             'the diagram whose clauses each read one part of it',
             'key pairs and identifier attribute sets are compared as sets (their order follows row order, which is shuffled)',
